@@ -1,0 +1,90 @@
+//go:build verif
+
+// Contracts for the deductive verifier in /verif (gocv). Comment-only file.
+
+package oracles
+
+// remainingMs: time (ms) until a lock taken at lockTS with the given TTL expires, judged by the newest timestamp
+// the oracle has seen (none seen: nothing remains). The property: IsExpired <=> UntilExpired <= 0.
+//@ spec func remainingMs(exist bool, last uint64, lock uint64, ttl uint64) int { return ite(exist, mathint(lock)/262144 + mathint(int64(ttl)) - mathint(last)/262144, 0) }
+
+// Assumed (the sync.Map and atomic.Pointer plumbing is not verified): what getLastTSWithArrivalTS finds was
+// published by setLastTS, whose precondition is issued(ts) and which never replaces a value by a smaller one.
+//@ func (o *pdOracle) getLastTSWithArrivalTS
+//@   trusted
+//@   modifies nothing
+//@   ensures result1 ==> result0 != nil && issued(result0.tso)
+//@   ensures !result1 ==> result0 == nil
+
+//@ func (o *pdOracle) getLastTS
+//@   prop C13
+//@   modifies nothing
+//@   ensures result1 ==> issued(result0)
+//@   ensures !result1 ==> result0 == 0
+
+//@ func (o *pdOracle) IsExpired
+//@   prop C13
+//@   modifies nothing
+//@   ensures result == (remainingMs(exist, lastTS, lockTS, TTL) <= 0)
+
+//@ func (o *pdOracle) UntilExpired
+//@   prop C13
+//@   modifies nothing
+//@   ensures mathint(result) == remainingMs(ok, lastTS, lockTS, TTL)
+
+//@ func (o *pdOracle) getTimestamp
+//@   prop C13
+//@   ensures result1 == nil ==> issued(result0)
+
+// setLastTS publishes only PD-issued values and only strictly newer ones (the CAS succeeds only against the value
+// that was compared).
+//@ func (o *pdOracle) setLastTS
+//@   prop C13
+//@   requires issued(ts)
+//@   at call(CompareAndSwap) assert newer: current.tso > last.tso && issued(current.tso) && arg1 == last && arg2 == current
+//@   at call(Store) assert first: issued(current.tso)
+
+//@ func (o *pdOracle) GetTimestamp
+//@   prop C13
+//@   ensures result1 == nil ==> issued(result0)
+
+//@ func (f *tsFuture) Wait
+//@   prop C13
+//@   ensures result1 == nil ==> issued(result0)
+
+// The cached (low-resolution) timestamp is one PD issued.
+//@ func (o *pdOracle) GetLowResolutionTimestamp
+//@   prop C13
+//@   ensures result1 == nil ==> issued(result0)
+
+// ---- read-timestamp validation -------------------------------------------------------------------
+
+// Ghost state for one ValidateReadTS invocation: vcalls counts its calls to getCurrentTSForValidation; floor is
+// (an upper bound of) every timestamp PD had issued when the invocation began.
+//@ ghost field pdOracle.vcalls int
+//@ ghost field pdOracle.floor uint64
+
+// Assumed (the single-flight argument spelled out in the comment inside ValidateReadTS): every result is a
+// PD-issued timestamp, and a fetch started after an earlier fetch of the same invocation has finished returns a
+// timestamp not below any timestamp issued before the invocation began.
+//@ func (o *pdOracle) getCurrentTSForValidation
+//@   trusted
+//@   modifies pdOracle.vcalls of o
+//@   ensures o.vcalls == old(o.vcalls) + 1
+//@   ensures result1 == nil ==> issued(result0) && (old(o.vcalls) >= 1 ==> result0 >= o.floor)
+
+//@ func (o *pdOracle) adjustUpdateLowResolutionTSIntervalWithRequestedStaleness
+//@   trusted
+//@   modifies nothing
+
+// accepted: an accepted timestamp does not exceed some timestamp PD has issued by the time the call ends;
+// rejected: "future read" is answered only for timestamps beyond everything issued before the call began, and only
+// after the second fetch; latest: MaxUint64 is refused for stale reads.
+//@ func (o *pdOracle) ValidateReadTS
+//@   prop C13
+//@   requires o.vcalls == 0
+//@   loop 1 invariant retry: o.vcalls >= 0 && (retrying ==> o.vcalls >= 1)
+//@   loop 1 invariant floor: o.floor == old(o.floor)
+//@   ensures accepted: result == nil && EnableTSValidation.v != 0 && readTS != 18446744073709551615 ==> exists t uint64 :: issued(t) && readTS <= t
+//@   ensures rejected: typeIs(result, oracle.ErrFutureTSRead) ==> readTS > o.floor && o.vcalls >= 2
+//@   ensures latest: EnableTSValidation.v != 0 && readTS == 18446744073709551615 && isStaleRead ==> result != nil
